@@ -66,6 +66,14 @@ func VH_C15_prom() {
 	verifInstallClock(1 << 41)
 	m, _ := NewServiceMetrics(nil)
 	conn := &verifConn{remote: &net.TCPAddr{IP: net.IPv4(203, 0, 113, 5), Port: 50000}, local: &net.TCPAddr{IP: net.IPv4(192, 0, 2, 1), Port: 443}}
+	loc := ""
+	if verifFlag("client-without-ip-address") {
+		// a connection handed over by a front end on a Unix socket (or any transport whose
+		// remote address is not IP:port): it is counted like every other connection
+		conn.remote = &net.UnixAddr{Name: "/run/front.sock", Net: "unix"}
+		// (which location code such a client gets is not the subject here: C20)
+		loc = m.getIPInfoFromAddr(conn.remote).CountryCode.String()
+	}
 	var d metrics.ProxyMetrics
 	d.ClientProxy, d.ProxyTarget, d.TargetProxy, d.ProxyClient = verifI64("cp"), verifI64("pt"), verifI64("tp"), verifI64("pc")
 	verifAssume(d.ClientProxy >= 0 && d.ProxyTarget >= 0 && d.TargetProxy >= 0 && d.ProxyClient >= 0)
@@ -82,16 +90,16 @@ func VH_C15_prom() {
 	verifAdvance()
 	tcm.AddClosed(status, d, 3*time.Second)
 	t := m.tcpServiceMetrics
-	verifAssert("C15.prom.opened-once", verifCounterValue(t.openConnections, "int", "", "", "") == 1)
-	verifAssert("C15.prom.closed-once", verifCounterValue(t.closedConnections, "int", "", "", "", status, key) == 1)
+	verifAssert("C15.prom.opened-once", verifCounterValue(t.openConnections, "int", loc, "", "") == 1)
+	verifAssert("C15.prom.closed-once", verifCounterValue(t.closedConnections, "int", loc, "", "", status, key) == 1)
 	pk := t.proxyCollector.dataBytesPerKey
 	verifAssert("C15.prom.bytes-c>p", verifCounterValue(pk, "int", "c>p", key) == d.ClientProxy)
 	verifAssert("C15.prom.bytes-p>t", verifCounterValue(pk, "int", "p>t", key) == d.ProxyTarget)
 	verifAssert("C15.prom.bytes-p<t", verifCounterValue(pk, "int", "p<t", key) == d.TargetProxy)
 	verifAssert("C15.prom.bytes-c<p", verifCounterValue(pk, "int", "c<p", key) == d.ProxyClient)
 	pl := t.proxyCollector.dataBytesPerLocation
-	verifAssert("C15.prom.loc-bytes-c>p", verifCounterValue(pl, "int", "c>p", "", "", "") == d.ClientProxy)
-	verifAssert("C15.prom.loc-bytes-c<p", verifCounterValue(pl, "int", "c<p", "", "", "") == d.ProxyClient)
+	verifAssert("C15.prom.loc-bytes-c>p", verifCounterValue(pl, "int", "c>p", loc, "", "") == d.ClientProxy)
+	verifAssert("C15.prom.loc-bytes-c<p", verifCounterValue(pl, "int", "c<p", loc, "", "") == d.ProxyClient)
 	verifReach("C15.prom.done", true)
 }
 
